@@ -16,6 +16,8 @@ std::vector<Blob>& blobs() { static std::vector<Blob> b; return b; }
 void register_op(const std::string& name, OpFn f) { ops()[name] = f; }
 void register_abort_hook(void (*f)(int, uint64_t)) { abort_hooks().push_back(f); }
 void register_final_hook(void (*f)()) { final_hooks().push_back(f); }
+std::vector<void (*)(const std::string&, const std::string&)>& integrity_hooks() { static std::vector<void (*)(const std::string&, const std::string&)> v; return v; }
+void register_integrity_hook(void (*f)(const std::string&, const std::string&)) { integrity_hooks().push_back(f); }
 
 void api_end() {
 	if (g_shm) g_shm->budget_policy = BUDGET_INCONCLUSIVE;
